@@ -240,7 +240,8 @@ def build_and_run(scratch, headers, main_header, driver_text, cxx="g++", std="c+
     else:
         cmd += ["-O0", src, "-o", exe]
     r = subprocess.run(cmd, capture_output=True, text=True, timeout=timeout)
-    res = {"compile_rc": r.returncode, "compile_err": r.stderr[-4000:], "cmd": " ".join(cmd)}
+    res = {"compile_rc": r.returncode, "compile_err": r.stderr.replace(scratch.dir, "<scratch>")[-4000:],
+           "cmd": " ".join(cmd).replace(scratch.dir, "<scratch>")}
     if r.returncode != 0 or syntax_only or not run:
         return res
     env = dict(os.environ)
@@ -249,5 +250,5 @@ def build_and_run(scratch, headers, main_header, driver_text, cxx="g++", std="c+
     rr = subprocess.run([exe], capture_output=True, timeout=timeout, env=env)
     res["run_rc"] = rr.returncode
     res["stdout"] = rr.stdout
-    res["stderr"] = rr.stderr.decode("utf-8", "replace")[-6000:]
+    res["stderr"] = rr.stderr.decode("utf-8", "replace").replace(scratch.dir, "<scratch>")[-6000:]
     return res
